@@ -11,7 +11,7 @@ use serde_json::{json, Value};
 use std::ops::Range;
 use std::path::Path;
 
-pub const FORMS: usize = 20;
+pub const FORMS: usize = 22;
 pub const CONTEXTS: usize = 3;
 
 #[derive(Clone, Debug)]
@@ -152,6 +152,24 @@ fn emit(text: &mut String, form: usize, ctx: usize, k: usize, items: &mut Vec<It
         19 => {
             let r = stmt(text, &format!("a[n + 1] === {e}"), true);
             item.constraints.push((r, vec!["a[n + 1]".into(), "in".into()]));
+        }
+        // right-pointing arrow with a tuple destination; `parallel` anonymous component with
+        // named `<--` inputs (only in sequences of length <= 2, see `run`)
+        20 => {
+            let r = stmt(text, &format!("({e}, in) --> (s, t2)"), false);
+            item.arrows.push((r, 1, 2, "s,t2".into()));
+        }
+        21 => {
+            text.push_str(indent);
+            let start = text.len();
+            text.push_str("t2 <== ");
+            let call_start = text.len();
+            text.push_str(&format!("parallel Mul2()(b <-- in, a <-- {e})"));
+            let end = text.len();
+            text.push_str(";\n");
+            item.arrows.push((call_start..end, 2, 2, "<anonymous>.a,<anonymous>.b".into()));
+            item.more_tokens = 1;
+            item.constraints.push((start..end, vec!["t2".into()]));
         }
         _ => {
             let r = stmt(text, "s <-- in * in", false);
@@ -371,9 +389,9 @@ fn seq_of(mut code: u64, len: usize) -> Vec<(usize, usize)> {
 pub fn run(run: &Run) {
     let max_len = run.tier.pick(3usize, 4usize);
     run.set_rule(&format!(
-        "templates whose body is every sequence of 1..={max_len} items from 20 forms {{s <-- e, e --> s, a[0] <-- e, \
+        "templates whose body is every sequence of 1..={max_len} items from 22 forms {{s <-- e, e --> s, a[0] <-- e, \
          a[i] <-- e, c.in <-- e, cs[i].in <-- e, signal t <-- e, (s,t2) <-- (e,in), (s,_) <-- Sub2()(e), \
-         t2 <== Sub()(in <-- e), s <== e, s === e, a[0] === e, signal p <-- e, q <-- in, signal (p,q) <-- (e,in), t2 <== Mul2()(a <-- e, b <-- in), a[n+1] <-- e, a[n-1] === e, a[n+1] === e, s <-- in*in}} x contexts {{top, inside if, \
+         t2 <== Sub()(in <-- e), s <== e, s === e, a[0] === e, signal p <-- e, q <-- in, signal (p,q) <-- (e,in), t2 <== Mul2()(a <-- e, b <-- in), a[n+1] <-- e, a[n-1] === e, a[n+1] === e, (e, in) --> (s, t2), t2 <== parallel Mul2()(b <-- in, a <-- e), s <-- in*in}} x contexts {{top, inside if, \
          inside for}} (at length 4 at most one item outside the top context), e alternating linear / cubic; plus every sequence of <= 2 items as parallel template and in a file with a main component, every \
          single item as custom template (with and without main), and a function; non-trivial = body with at least one `<--`"
     ));
@@ -383,6 +401,10 @@ pub fn run(run: &Run) {
         let n = radix.pow(len as u32);
         par_for(n, 16, |code| {
             let seq = seq_of(code, len);
+            if len >= 3 && seq.iter().any(|(form, _)| *form == 20 || *form == 21) {
+                // the two latest forms only in sequences of length <= 2
+                return;
+            }
             if len >= 4 && seq.iter().filter(|(_, ctx)| *ctx != 0).count() > 1 {
                 // length 4 (thorough): at most one item inside an `if` / `for`
                 return;
